@@ -60,7 +60,15 @@ fn variants(r: &mut Rng, t: u64) -> Vec<(String, Option<Value>, Option<Value>, E
     v.push(("exp-absent".into(), None, None, Expect::Reject("exp")));
     v.push(("exp-null".into(), Some(Value::Null), None, Expect::Reject("exp")));
     v.push(("exp-string".into(), Some(json!(format!("{}", fut(r)))), None, Expect::Reject("exp")));
+    // date-time and other textual / decorated spellings of a FUTURE instant are not numbers
+    for (i, txt) in ["2099-01-01T00:00:00Z", "2099-01-01T00:00:00+00:00", "2099-12-31T23:59:59.999Z", "2099-01-01 00:00:00", "2099-01-01", "Thu, 01 Jan 2099 00:00:00 GMT",
+        "4102444799", "4102444799.0", "4.1e9", "+4102444799", " 4102444799", "0xF4865700", "Infinity", "never", "", "P10Y"].iter().enumerate() {
+        v.push((format!("exp-text-{i}"), Some(json!(txt)), None, Expect::Reject("exp")));
+    }
+    v.push(("exp-text-nbf-past".into(), Some(json!("2099-01-01T00:00:00Z")), Some(json!(t - 3600)), Expect::Reject("exp")));
     v.push(("exp-bool".into(), Some(json!(true)), None, Expect::Reject("exp")));
+    v.push(("exp-false".into(), Some(json!(false)), None, Expect::Reject("exp")));
+    v.push(("exp-empty-array".into(), Some(json!([])), None, Expect::Reject("exp")));
     v.push(("exp-array".into(), Some(json!([fut(r)])), None, Expect::Reject("exp")));
     v.push(("exp-object".into(), Some(json!({"v": fut(r)})), None, Expect::Reject("exp")));
     v.push(("exp-negative".into(), Some(json!(-5)), None, Expect::Reject("exp")));
@@ -163,7 +171,26 @@ fn one_case(ctx: &Ctx, case: u64, l: &mut Local) {
         if let Some(n) = &nbf {
             p.insert("nbf".into(), n.clone());
         }
-        let jwt = api::sign_payload(cfg.alg, 0, &Value::Object(p), None);
+        // the header's typ (and other members) say nothing about the validity window either
+        let mut hdr = json!({"alg": cfg.alg.name()});
+        match (vi as u64 + case) % 12 {
+            0 | 1 => {}
+            2 => hdr["typ"] = json!("sd+jwt"),
+            3 => hdr["typ"] = json!("dc+sd-jwt"),
+            4 => hdr["typ"] = json!("vc+sd-jwt"),
+            5 => hdr["typ"] = json!("application/dc+sd-jwt"),
+            6 => hdr["typ"] = json!("JWT"),
+            7 => hdr["typ"] = json!("DC+SD-JWT"),
+            8 => {
+                hdr["typ"] = json!("example+sd-jwt");
+                hdr["cty"] = json!("json");
+            }
+            9 => hdr["kid"] = json!("k0"),
+            10 => hdr["typ"] = json!("at+jwt"),
+            _ => hdr["typ"] = json!("application/vc+sd-jwt"),
+        }
+        l.count(&format!("header-typ.{}", hdr.get("typ").and_then(Value::as_str).unwrap_or("none")));
+        let jwt = api::sign_raw(&hdr, &Value::Object(p), cfg.alg.jwt(), &crate::keys::issuer_enc(cfg.alg, 0));
         let sd = Parts {
             jwt,
             disclosures: issued.parts.disclosures.clone(),
